@@ -15,8 +15,8 @@ ASSUMPTIONS = ['sequences are homogeneous lists/tuples (numpy coerces heterogene
                'substring variants are judged with unit costs only (as the statement says)',
                'for equal lengths the first argument is taken as the "longer" sequence, either reading accepted for the distance']
 N = {'quick': 6000, 'thorough': 400000}
-CLASSES = ['random_small', 'random_small', 'equal', 'substring', 'prefix_insertion', 'empty', 'large_alphabet', 'ints', 'tokens', 'summary_lists']
-REQUIRED = ['gap_marker_alignments', 'aggregate_iterables', 'dist_checked', 'align_checked', 'path_checked', 'substr_dist_checked', 'substr_align_checked', 'summary_checked', 'aggregate_checked']
+CLASSES = ['random_small', 'random_small', 'equal', 'substring', 'prefix_insertion', 'empty', 'large_alphabet', 'ints', 'tokens', 'summary_lists', 'long_vs_tiny']
+REQUIRED = ['long_sequence_distances', 'paths_with_an_occurring_empty_symbol', 'nested_aggregates', 'gap_marker_alignments', 'aggregate_iterables', 'dist_checked', 'align_checked', 'path_checked', 'substr_dist_checked', 'substr_align_checked', 'summary_checked', 'aggregate_checked']
 EXHAUSTIVE_KEY = 'exhaustive_pairs'
 EXHAUSTIVE_NOTE = 'all ordered pairs of sequences over {a,b} up to length 4 (quick) / 6 (thorough) and over {a,b,c} up to length 4 (thorough), unit costs and one non-unit cost triple'
 
@@ -64,6 +64,13 @@ def gen(rng, i, ctx):
     costs = tuple(int(c) for c in rng.integers(1, 5, size=3))
     if rng.random() < 0.25:
         costs = (1, 1, 1)
+    if cls == 'long_vs_tiny' and (i // len(CLASSES)) % 8 == 0:
+        c = int(rng.choice([1, 2, 4]))
+        n = 32767 // c + int(rng.integers(-2, 3))             # lengths around the points where length x cost crosses 2^15
+        costs = (int(rng.integers(1, c + 1)), c, c) if rng.random() < 0.5 else (c, int(rng.integers(1, c + 1)), c)
+        a = _seq(rng, n, alpha)
+        b = _seq(rng, int(rng.integers(0, 4)), alpha)
+        return {'a': a, 'b': b, 'costs': costs, 'tuple': False, 'long': True}
     as_tuple = bool(rng.random() < 0.15)
     case = {'a': a, 'b': b, 'costs': costs, 'tuple': as_tuple}
     if cls == 'summary_lists':
@@ -113,6 +120,17 @@ def check_pair(a, b, costs, mon, ctx, light=False):
         mon.violation('path:projection', {'a': a, 'b': b, 'costs': costs, 'path': [float(x) for x in path]})
     elif cost != r:
         mon.violation('path:cost', {'a': a, 'b': b, 'costs': costs, 'path': [float(x) for x in path], 'cost': cost, 'expected': r})
+    # the path variant takes an empty_symbol argument for symmetry with the pair variant; a path has no gap markers, so the argument changes nothing -
+    # also when that symbol occurs in the sequences
+    if len(a) + len(b):
+        sym = (list(a) + list(b))[(len(a) * 7 + len(b)) % (len(a) + len(b))]
+        try:
+            p2 = sa.levenshtein_alignment_path(a, b, sc, ic, dc, empty_symbol=sym)
+            mon.count('paths_with_an_occurring_empty_symbol')
+            if [float(x) for x in p2] != [float(x) for x in path]:
+                mon.violation('path:projection', {'a': a, 'b': b, 'costs': costs, 'empty_symbol': sym, 'path': [float(x) for x in p2], 'path_without_the_argument': [float(x) for x in path]})
+        except Exception as e:
+            mon.violation('path:projection', {'a': a, 'b': b, 'empty_symbol': sym, 'exception': repr(e)[:200]})
     # substring variants, unit costs
     longer, shorter = (a, b) if len(a) >= len(b) else (b, a)
     rs = ref_substring(longer, shorter)
@@ -201,6 +219,14 @@ def check_summary(pairs, mon, ctx):
     got = {(k, h): n for k, c in agg.confusions.items() for h, n in c.items() if n}
     if got != tot:
         mon.violation('aggregate:confusions', {'pairs': pairs})
+    # aggregates of aggregates (lines -> pages -> document), and an empty aggregate among them
+    if len(sums) >= 2:
+        nested = es.ErrorsSummary.aggregate([es.ErrorsSummary.aggregate(sums[:1]), es.ErrorsSummary.aggregate(sums[1:]), es.ErrorsSummary.aggregate([])])
+        mon.count('nested_aggregates')
+        for f in ('nb_lines_summarized', 'ref_len', 'nb_errors', 'nb_subs', 'nb_inss', 'nb_dels'):
+            if getattr(nested, f) != getattr(agg, f):
+                mon.violation('aggregate:sum', {'field': f, 'aggregate_of_aggregates': int(getattr(nested, f)), 'flat_aggregate': int(getattr(agg, f)), 'parts': len(sums)})
+                break
     # the partial summaries may arrive as any iterable (a generator over the lines of a file, a map object)
     for name, it in (('generator', (x for x in sums)), ('iterator', iter(sums)), ('tuple', tuple(sums))):
         try:
@@ -224,6 +250,18 @@ def check_summary(pairs, mon, ctx):
 
 def check(case, mon, ctx):
     a, b = case['a'], case['b']
+    if case.get('long'):
+        # a long sequence against a tiny one (a whole page against a line): the distance only (the other functions are quadratic in python)
+        sa = ctx.sa
+        sc, ic, dc = case['costs']
+        for x, y in ((a, b), (b, a)):
+            r = ref_lev(x, y, sc, ic, dc)
+            d = sa.levenshtein_distance(x, y, sc, ic, dc)
+            mon.count('long_sequence_distances')
+            if d != r:
+                mon.violation('distance', {'lengths': [len(x), len(y)], 'costs': case['costs'], 'got': float(d), 'expected': r})
+        mon.mark_nontrivial()
+        return
     if case['tuple']:
         a, b = tuple(a), tuple(b)
     if len(a) and len(b) and list(a) != list(b):
